@@ -59,6 +59,9 @@ type Loc struct {
 	Global string
 	Path   []Sel
 	ElTyp  types.Type // type of the value at this location
+	// element of an immutable package-level slice: name and index relative to the slice start
+	GlobalSlice string
+	RelIndex    *Term
 }
 
 type Sel struct {
@@ -215,13 +218,13 @@ func (st *State) assume(t *Term) {
 func (fv *FuncVer) heapKey(t types.Type) (string, *Sort) {
 	t = types.Unalias(t)
 	if a, ok := t.Underlying().(*types.Array); ok {
-		if _, opaque := isByteArray(t); !(opaque && a.Len() >= opaqueByteArrayMin) {
+		if _, opaque := isByteArray(t); !(opaque && a.Len() >= fv.ctx.opaqueMin) {
 			return fv.elemsKey(a.Elem())
 		}
 	}
 	s := fv.ctx.SortOf(t)
 	k := "H:" + typeKey(t)
-	if n, ok := isByteArray(t); ok && n >= opaqueByteArrayMin {
+	if n, ok := isByteArray(t); ok && n >= fv.ctx.opaqueMin {
 		k = "H:" + s.Name
 	}
 	hs := fv.ctx.ArraySort(SInt, s)
@@ -378,7 +381,24 @@ func (fv *FuncVer) setPath(v Val, path []Sel, nv Val) Val {
 }
 
 func (fv *FuncVer) load(st *State, l *Loc) Val {
+	// elements of an immutable package-level slice are a function of the index
+	if l.Kind == rootElems && len(l.Path) >= 1 && l.Path[0].Index != nil && l.GlobalSlice != "" {
+		v := fv.ctx.Func("gelem_"+l.GlobalSlice, fv.ctx.SortOf(l.Typ), l.RelIndex)
+		return fv.getPath(v, l.Path[1:])
+	}
 	return fv.getPath(fv.rootValue(st, l), l.Path)
+}
+
+// immutableGlobalSlice: the name of the immutable package-level variable a slice value was loaded from.
+func (fv *FuncVer) immutableGlobalSlice(sl *Term) string {
+	r := resolve(sl)
+	if r.Sym != nil && strings.HasPrefix(r.Sym.Name, "g0_") && len(r.Args) == 0 {
+		name := strings.TrimPrefix(r.Sym.Name, "g0_")
+		if fv.eng.immutableSan[name] {
+			return name
+		}
+	}
+	return ""
 }
 
 func (fv *FuncVer) store(st *State, l *Loc, v Val) {
